@@ -4,7 +4,13 @@ Theorems: FinVerif/Props/C07a.lean (closed forms = explicit cash-flow sums for e
 dirty = clean + accrued) and C07b.lean (curve loop = PV sum, schedule position, strict monotonicity, yield
 round trip from the solver postcondition, bump formulas, zero / annuity / FRN identities) about the
 hand-written model FinVerif/Model/C07Bond.lean.
-Tie: the model at Float (Driver/C07) against the implementation on every case; the source-independent spec
+Growth: C07d (the GENERATED Gen/BondR.lean = the hand model, every YTMCalcType branch; dirty = clean + accrued, risk and
+zero/FRN/annuity formulas of the generated text), C07e (strictly decreasing + strictly convex in yield for every branch as
+coded, unique yield / round trip of the generated function), C07f (HasDerivAt of the price to every order, central-difference
+error bounds dy^2/6 sup|P3| and dy^2/12 sup|P4| for the coded dollar duration / convexity), C07g (ICMA accrued from the
+C15 day-count theorems, zero-coupon monotonicity, FRN loop = PV / par at DM = quoted margin / unique DM, curve rescaling).
+Tie: the model at Float (Driver/C07) AND the generated formulas at Float (Gen/BondF, ops G...) against the implementation
+on every case; the source-independent spec
 (Driver/C07Spec: explicit cash-flow sums) against the implementation; direct oracles on the implementation."""
 import contextlib
 import io
@@ -19,8 +25,9 @@ import dates as D   # noqa: E402
 from floatcmp import f2b, b2f, close  # noqa: E402
 from parallel import driver_parallel  # noqa: E402
 
-GEN = []
-PROPS = ['FinVerif.Props.C07a', 'FinVerif.Props.C07b', 'FinVerif.Props.C07c']
+GEN = ['BondF', 'BondR']
+PROPS = ['FinVerif.Props.C07a', 'FinVerif.Props.C07b', 'FinVerif.Props.C07c', 'FinVerif.Props.C07d', 'FinVerif.Props.C07e',
+         'FinVerif.Props.C07f', 'FinVerif.Props.C07g']
 DRIVERS = ['FinVerif.Driver.C07']
 SPEC_DRIVERS = ['FinVerif.Driver.C07Spec']
 
@@ -35,6 +42,7 @@ RULE = ('bond cases = (bond, settlement date, yield, convention): bonds drawn ov
         'and negative-yield cases is reported per branch. Curve / zero / annuity / FRN components likewise.')
 
 SHIFT = 0.000000000012345
+PRINCIPAL_FACE = 1000000.0     # face used for the tie of `Bond.principal` (hard-wired in Driver/C07 GBOND too)
 CONV_CODES = {'UK_DMO': 1, 'US_STREET': 2, 'US_TREASURY': 3, 'CFETS': 4}
 
 F_TREAS = 'C07/us-treasury-last-period-compounding'
@@ -258,6 +266,44 @@ def case_ops(k):
     return op_bond, op_risk, op_dp, op_acc
 
 
+def gen_op(k, risk):
+    """op for the GENERATED formulas (Gen/BondF.lean): the translated `accrued_interest`, `dirty_price_from_ytm`,
+    `clean_price_from_ytm` and bump formulas composed the way the methods call each other."""
+    p = k['bond']
+    return ('GBOND %d %d %d %d %d ' % (CONV_CODES[k['conv']], k['n'] + 1, k['s'], k['exdt'], 1 if risk else 0)
+            + ' '.join(f2b(x) for x in (p['cpn'], k['f'], k['ytm'], k['accf'], k['alpha_cf'])))
+
+
+def judge_gen_case(ctx, k, r, ans, stats):
+    """tie of the generated text: implementation vs Gen/BondF at Float (same tolerances as the hand model)"""
+    if 'error' in r:
+        return
+    p = k['bond']
+    v = 1.0 / (1.0 + (k['ytm'] + SHIFT) / k['f'])
+    m = ans.split()
+    bad = []
+    for nm, tok, val, rt in (('alpha', m[0], r['alpha'], 1e-12), ('accrued', m[1], r['acc'], 1e-12),
+                             ('dirty', m[2], r['dp'], rtol_model(v)), ('clean', m[3], r['cp'], rtol_model(v))):
+        if tok.startswith('E:'):
+            bad.append(f'{nm}: generated {tok} impl {val}')
+        elif not relclose(b2f(tok), val, rt, 1e-11):
+            bad.append(f'{nm}: generated {b2f(tok)!r} impl {val!r}')
+    if 'dd' in r and len(m) >= 8:
+        for nm, tok, iv, rt, at in (('dollar_duration', m[4], r['dd'], 1e-7, 1e-8), ('modified_duration', m[5], r['md'], 1e-7, 1e-10),
+                                    ('macauley_duration', m[6], r['mac'], 1e-7, 1e-10), ('convexity', m[7], r['cx'], 1e-4, 1e-8)):
+            if not relclose(b2f(tok), iv, rt, at):
+                bad.append(f'{nm}: generated {b2f(tok)!r} impl {iv!r}')
+        if 'principal' in r and len(m) >= 10:
+            for nm, tok, iv in (('principal', m[8], r['principal']), ('current_yield', m[9], r['cy'])):
+                if not relclose(b2f(tok), iv, rtol_model(v), 1e-9):
+                    bad.append(f'{nm}: generated {b2f(tok)!r} impl {iv!r}')
+    stats['gen_compared'] = stats.get('gen_compared', 0) + 1
+    if bad:
+        stats['gen_disagree'] = stats.get('gen_disagree', 0) + 1
+        if stats['gen_disagree'] <= 3:
+            ctx.broke(f'correspondence bond (generated Gen/BondF): != implementation on {brief(k)}: ' + '; '.join(bad))
+
+
 def python_cashflow_sum(k):
     """The same explicit sum as the Lean spec, written independently in Python (cross-check of the spec driver)."""
     p = k['bond']
@@ -320,6 +366,8 @@ def impl_eval(F, bond, k, do_ytm, do_risk):
             r['cx'] = float(bond.convexity_from_ytm(settle, y, Y))
             r['p_m2'] = float(bond.dirty_price_from_ytm(settle, y - 2 * h, Y))
             r['p_p2'] = float(bond.dirty_price_from_ytm(settle, y + 2 * h, Y))
+            r['principal'] = float(bond.principal(settle, y, PRINCIPAL_FACE, Y))
+            r['cy'] = float(bond.current_yield(r['cp']))
         except Exception as e:  # noqa: BLE001
             r['risk_error'] = err_kind(e, F) + ': ' + str(e)[:80]
     return r
@@ -589,6 +637,7 @@ def zero_cases(ctx, rng, F, nz, drivers_ok):
     Date, BondZero, DayCount, DCT, FT = F['Date'], F['BondZero'], F['DayCount'], F['DayCountTypes'], F['FrequencyTypes']
     Y0 = F['YTMCalcType'].ZERO
     ops, impl, cases = [], [], []
+    gops, gimpl, gcases = [], [], []
     stats = {}
     for (d, m, y) in D.interesting_dates(rng, nz, 1996, 2034):
         issue = Date(d, m, y)
@@ -641,7 +690,12 @@ def zero_cases(ctx, rng, F, nz, drivers_ok):
                     'ZCURVE %s %s' % (f2b(dfmm), f2b(dfs))]
             impl += [dp, acc, pcv]
             cases += [case] * 3
+            gops.append('GZERO %d %d %d %d ' % (sum(1 for x in z.cpn_dts if x > settle), ser(settle), ser(issue), ser(mat))
+                        + ' '.join(f2b(x) for x in (yv, float(t), ip)))
+            gimpl.append((dp, acc, cp))
+            gcases.append(case)
     model_compare(ctx, 'zero', ops, impl, cases, drivers_ok, 1e-10)
+    gen_compare(ctx, 'zero', gops, gimpl, gcases, drivers_ok, 1e-10)
     ctx.count('zero-coupon bond', len(ops), len(ops), sample={'op': ops[0] if ops else None})
     return stats
 
@@ -663,9 +717,35 @@ def model_compare(ctx, comp, ops, impl, cases, drivers_ok, rtol):
     ctx.cov['components'].setdefault(comp + ' (model)', {})['disagree_model'] = nbad
 
 
+def gen_compare(ctx, comp, ops, impls, cases, drivers_ok, rtol, atol=1e-11):
+    """tie of the generated formulas (Gen/BondF, ops `G...`): every answer token against the implementation's value"""
+    if not drivers_ok or not ops:
+        return
+    try:
+        ans = driver_parallel('C07', ops)
+    except C.DriverError as e:
+        ctx.broke(f'model driver failed on component {comp} (generated ops): {str(e)[:300]}')
+        return
+    nbad = 0
+    for o, a, iv, cs in zip(ops, ans, impls, cases):
+        toks = a.split()
+        ok = a != 'bad-op' and len(toks) == len(iv)
+        if ok:
+            for t, x in zip(toks, iv):
+                if t.startswith('E:') or not relclose(b2f(t), x, rtol, atol):
+                    ok = False
+        if not ok:
+            nbad += 1
+            if nbad <= 3:
+                shown = [t if t.startswith('E:') or t == 'bad-op' else b2f(t) for t in toks]
+                ctx.broke(f'correspondence {comp} (generated Gen/BondF): {shown} != implementation {list(iv)} on {cs} ({o.split()[0]})')
+    ctx.cov['components'].setdefault(comp + ' (generated)', {}).update({'compared': len(ops), 'disagree': nbad})
+
+
 def annuity_cases(ctx, rng, F, na, drivers_ok):
     Date, BondAnnuity, DayCount, DCT, FT = F['Date'], F['BondAnnuity'], F['DayCount'], F['DayCountTypes'], F['FrequencyTypes']
     ops, impl, cases = [], [], []
+    gops, gimpl = [], []
     for (d, m, y) in D.interesting_dates(rng, na, 2000, 2030):
         settle = Date(d, m, y)
         mat = settle.add_days(rng.randint(40, 8000))
@@ -686,6 +766,7 @@ def annuity_cases(ctx, rng, F, na, drivers_ok):
             with contextlib.redirect_stdout(io.StringIO()):     # the library prints "FinFrequency: 2.0" before raising
                 dp = float(a.dirty_price_from_discount_curve(settle, curve))
                 cp = float(a.clean_price_from_discount_curve(settle, curve))
+                acc_state = float(a.accrued_int)      # the state `clean_price_from_discount_curve` read
                 acc = float(a.accrued_interest(settle, 100.0))
         except Exception as e:  # noqa: BLE001
             ctx.violation('annuity pricing raised', dict(case, error=err_kind(e, F) + ': ' + str(e)[:80]), clause='annuity-no-error')
@@ -705,13 +786,17 @@ def annuity_cases(ctx, rng, F, na, drivers_ok):
         ops.append('ANN %s ' % f2b(cpn) + ' '.join(f2b(x) for x in pairs))
         impl.append(dp)
         cases.append(case)
+        gops.append('GANN %s %s' % (f2b(dp), f2b(acc_state)))
+        gimpl.append((cp,))
     model_compare(ctx, 'annuity', ops, impl, cases, drivers_ok, 1e-10)
+    gen_compare(ctx, 'annuity', gops, gimpl, cases, drivers_ok, 1e-12, 1e-12)
     ctx.count('annuity', len(ops), len(ops), sample={'op': ops[0][:120] if ops else None})
 
 
 def frn_cases(ctx, rng, F, nf, drivers_ok):
     Date, BondFRN, DayCount, DCT, FT = F['Date'], F['BondFRN'], F['DayCount'], F['DayCountTypes'], F['FrequencyTypes']
     ops, impl, cases = [], [], []
+    gops, gimpl, gcases = [], [], []
     for (d, m, y) in D.interesting_dates(rng, nf, 2000, 2030):
         issue = Date(d, m, y)
         freq = rng.choice(['ANNUAL', 'SEMI_ANNUAL', 'QUARTERLY'])
@@ -777,7 +862,24 @@ def frn_cases(ctx, rng, F, nf, drivers_ok):
             ops.append('FRN ' + ' '.join(f2b(x) for x in [a0, a1, nc, cur, fut, q, dm] + alphas))
             impl.append(dp)
             cases.append(case)
+            # generated formulas: clean price, bump-and-reprice risk (in current_ibor), principal - fed with the implementation's own prices
+            try:
+                dyf = 0.0001
+                frn.accrued_interest(settle, nc)
+                p_up = float(frn.dirty_price_from_dm(settle, nc, cur + dyf, fut, dm))
+                p_dn = float(frn.dirty_price_from_dm(settle, nc, cur - dyf, fut, dm))
+                fdd = float(frn.dollar_duration(settle, nc, cur, fut, dm))
+                fmd = float(frn.modified_duration(settle, nc, cur, fut, dm))
+                fmac = float(frn.macauley_duration(settle, nc, cur, fut, dm))
+                fcx = float(frn.convexity_from_dm(settle, nc, cur, fut, dm))
+                fpr = float(frn.principal(settle, nc, cur, fut, dm, PRINCIPAL_FACE))
+                gops.append('GFRN ' + ' '.join(f2b(x) for x in (nc, dm, dp, accf, p_up, p_dn, float(frn.freq), PRINCIPAL_FACE)))
+                gimpl.append((cp, fdd, fmd, fmac, fcx, fpr))
+                gcases.append(case)
+            except Exception as e:  # noqa: BLE001
+                ctx.violation('FRN risk measure raised', dict(case, error=err_kind(e, F) + ': ' + str(e)[:80]), clause='frn-risk-no-error')
     model_compare(ctx, 'frn', ops, impl, cases, drivers_ok, 1e-10)
+    gen_compare(ctx, 'frn', gops, gimpl, gcases, drivers_ok, 1e-9, 1e-9)
     ctx.count('FRN', len(ops), len(ops), sample={'op': ops[0][:120] if ops else None})
 
 
@@ -800,7 +902,8 @@ WITNESSES = [
 
 def run(ctx):
     drivers_ok = C.lean_stage(ctx, GEN, PROPS, DRIVERS + SPEC_DRIVERS,
-                              extra_files=['FinVerif/Lemmas/C07Real.lean', 'FinVerif/Model/C07Bond.lean', 'FinVerif/Spec/C07.lean'])
+                              extra_files=['FinVerif/Lemmas/C07Real.lean', 'FinVerif/Lemmas/C07Calc.lean', 'FinVerif/Lemmas/C07FD.lean',
+                                           'FinVerif/Model/C07Bond.lean', 'FinVerif/Spec/C07.lean'])
     C.import_financepy()
     F = fp()
     F['Date'](1, 1, 2120)  # extend the date table once (table-extension history is C13/C18's subject)
@@ -867,9 +970,9 @@ def run(ctx):
                     curve_cases.append(curve_case(rng, F, bond, p, settle))
         # ---- drivers
         m_ops, s_ops = [], []
-        for k in cases:
+        for k, r in zip(cases, impls):
             ob, orisk, odp, oacc = case_ops(k)
-            m_ops += [ob, orisk]
+            m_ops += [ob, orisk, gen_op(k, 'dd' in r)]
             s_ops += [odp, oacc]
         model = spec = None
         try:
@@ -883,8 +986,9 @@ def run(ctx):
                 ctx.broke(f'model driver failed: {str(e)[:300]}')
         if spec is not None and model is not None:
             for i, (k, r) in enumerate(zip(cases, impls)):
-                judge_bond_case(ctx, k, r, model[2 * i], spec[2 * i], spec[2 * i + 1], stats)
-                judge_risk_model(ctx, k, r, model[2 * i + 1], stats)
+                judge_bond_case(ctx, k, r, model[3 * i], spec[2 * i], spec[2 * i + 1], stats)
+                judge_risk_model(ctx, k, r, model[3 * i + 1], stats)
+                judge_gen_case(ctx, k, r, model[3 * i + 2], stats)
         # ---- curve
         cm, cs_ = [], []
         for k in curve_cases:
@@ -931,10 +1035,13 @@ def run(ctx):
         '(non-ICMA day counts) are counted in oracle_counts.mono_skipped_negative_alpha',
     ]
     return C.finish(ctx, 'proof',
-                    'lake build FinVerif.Props.C07a FinVerif.Props.C07b FinVerif.Props.C07c && lake env lean .cache/audit/Audit_C07.lean',
+                    'lake build ' + ' '.join(PROPS) + ' && lake env lean .cache/audit/Audit_C07.lean',
                     C.TRUSTED_BASE_COMMON + ['Spec/C07.lean: the conventions\' discounting rules (UK DMO compound; US Street compound, '
                                              'money-market last period; US Treasury simple first fraction; CFETS ACT/365 last period)',
-                                             'hand-written model Model/C07Bond.lean, tied to bond.py by the per-run correspondence'],
+                                             'hand-written model Model/C07Bond.lean, tied to bond.py by the per-run correspondence and, for the '
+                                             'loop-free formulas, by theorems gen = model about Gen/BondR.lean (regenerated from bond*.py each run)',
+                                             'tools/py2lean/registry/bonds.py: the listed glue statements (schedule loops, day-count / calendar calls, '
+                                             'method calls replaced by parameters) - each must occur verbatim exactly once or generation fails'],
                     RULE)
 
 
